@@ -62,6 +62,8 @@ fn impl_answer(r: &RunResult, var_tys: &[(String, Ty)], is_let: bool) -> String 
     match &r.outcome {
         Outcome::Done => {}
         Outcome::Rejected(e) => return format!("rejected {}", e.lines().nth(1).unwrap_or("").trim()),
+        // a host panic of the VM is the model VM's `fault`
+        Outcome::Crash(_) => return "fault".to_string(),
         o => return format!("{} {}", o.tag(), r.err_text.lines().next().unwrap_or("")),
     }
     let mut arm: Option<i64> = None;
@@ -172,7 +174,10 @@ fn main() {
         let out = String::from_utf8_lossy(&o.stdout).trim().to_string();
         if o.status.success() { Ok(out) } else { Ok(format!("{out} <abnormal exit {:?}>", o.status.code())) }
     };
-    let probes: [(&str, &str, &str); 6] = [
+    let probes: [(&str, &str, &str); 9] = [
+        ("D97", "let (x | x, y) = (1, 2)\nprintln(x + y)\n", "3"),
+        ("B15-let-variants", "type Wrap = Wr(int)\ntype Two = Aa(x: int, y: int)\ntype Unit = Un\nlet (Wrap.Wr(a)) = Wrap.Wr(3)\nvar (Two.Aa(x = b, y = c), e) = (Two.Aa(4, 5), 6)\nb = b + 1\ne = e + 1\nlet ((d, _) | (_, d)) = (1, 2)\nlet (Unit.Un, f) = (Unit.Un, 7)\nvar t = 0\nfor (.Wr(g), h) in [(Wrap.Wr(1), 2), (Wrap.Wr(3), 4)] {\n  t = t + g + h\n}\nlet (.Wr(k)): Wrap = Wrap.Wr(8)\nprintln(a + b + c + e + d + f + t + k)\n", "46"),
+        ("A09-zero-field-struct", "type Unit = {}\ntype Wrap = Wr(Unit) | Zed\nlet u = Unit()\nlet a = match u {\n  Unit() -> 1\n}\nlet b = match Wrap.Wr(Unit()) {\n  .Wr(Unit()) -> 10\n  .Zed -> 20\n}\nlet c = match (1, Unit()) {\n  (2, Unit()) -> 100\n  (1, Unit()) -> 200\n  _ -> 300\n}\nprintln(a + b + c)\n", "211"),
         ("D27", "let t = (1, 4)\nlet r = match t {\n  (1 | 2, 3 | 4) -> 0\n  _ -> 1\n}\nprintln(r)\n", "0"),
         ("D27b", "let t = (2, 3)\nlet r = match t {\n  (1 | 2, 3 | 4) -> 0\n  _ -> 1\n}\nprintln(r)\n", "0"),
         ("D31", "type Foo =\n  | Bar(void)\n  | Baz\nlet t = (Foo.Bar(nil), false)\nlet r = match t {\n  (.Bar(_), true) -> 0\n  (.Bar(_), false) -> 2\n  (.Baz, _) -> 1\n}\nprintln(r)\n", "2"),
@@ -342,6 +347,48 @@ fn main() {
             var_tys: binds,
             what: format!("{} {} = {}", if use_for { "for" } else { "let" }, u.pat_src(&p), u.val_src(&v, &ty)),
             kind: if use_for { "for" } else { "let" },
+            is_let: true,
+        });
+    }
+
+    // ---- let / var / for with variant, named-variant, literal and or sub-patterns (D96, D97): every
+    //      irrefutable pattern binds like the matching arm would
+    let n_rich = if quick { 220 } else { 4000 };
+    let mut made_rich = 0;
+    let mut tries_rich = 0;
+    while made_rich < n_rich && tries_rich < n_rich * 40 {
+        tries_rich += 1;
+        let ty = ctx.rng.pick(&tys).clone();
+        if ty == Ty::Void {
+            continue;
+        }
+        let mut binds: Option<Vec<(String, Ty)>> = Some(vec![]);
+        let p = u.gen_pat(&ty, 1 + ctx.rng.below(2) as usize, &mut ctx.rng, &mut binds, false);
+        if matches!(p, Pat::Wild | Pat::Bind(_)) || !irrefutable_on(&u, &ty, &p) {
+            continue;
+        }
+        // plain tuple/struct patterns of wildcards and bindings are the old stream's
+        let interesting = has_or(&p) || format!("{:?}", p).contains("Variant") || format!("{:?}", p).contains("Void");
+        if !interesting && ctx.rng.chance(4, 5) {
+            continue;
+        }
+        made_rich += 1;
+        let binds = binds.unwrap();
+        let values = u.values(&ty, 3);
+        let v = ctx.rng.pick(&values).clone();
+        let form = made_rich % LET_FORMS.len();
+        let uses: Vec<String> = binds.iter().map(|(x, _)| format!("println(\"{x}=\" .. {x})")).collect();
+        let mut b = vec![];
+        bindings(&p, &v, &mut b);
+        ctx.count(&format!("rich-destructuring:{}", LET_FORMS[form]));
+        if has_or(&p) { ctx.count("rich-destructuring:with-or-pattern"); }
+        jobs.push(Job {
+            req: format!("pc let {} {} {} {} #{}", u.env_req(), u.ty_req(&ty), u.pat_req(&p), val_req(&v), LET_FORMS[form]),
+            src: let_program(&u, &ty, &p, &v, form, &uses),
+            spec: spec_of(None, &b),
+            var_tys: binds,
+            what: format!("{} ({}) = {}", LET_FORMS[form], u.pat_src(&p), u.val_src(&v, &ty)),
+            kind: "rich-let",
             is_let: true,
         });
     }
